@@ -681,3 +681,24 @@ package consensus
 //@   opt protect msg.Round
 //@   requires cs != nil && msg != nil
 //@   callpre Zerofy: ghost(ott_ok) && ghost(ott_of) == caller_prevotes && old(cs.lockedRound) < msg.Round
+
+// the proposer of (height, round) is validator (height + round) mod n - the same on every node
+//@ func getProposerIndex(validators, height, round) (r)
+//@   arith int
+//@   pure
+//@   requires validators != nil && vl_len(validators) > 0 && height >= 0 && height < 0x4000000000000000 && round >= 0
+//@   ensures [round_robin] r == (height + round) % vl_len(validators) && 0 <= r && r < vl_len(validators)
+
+// a proposal that names a proof-of-lock round counts as complete only when the prevotes of exactly
+// that round answered with a non-nil block
+//@ func (cs *consensus) isProposalAndPOLPrevotesComplete() (r)
+//@   arith int
+//@   nosafety
+//@   modifies *
+//@   opt no-callee-pre
+//@   opt inline-none
+//@   opt protect cs.proposalPOLRound
+//@   requires cs != nil
+//@   callpre votesFor: round == cs.proposalPOLRound && voteType == VoteTypePrevote && cs.proposalPOLRound >= 0
+//@   callpre getOverTwoThirdsPartSetID: vs == ghost(vf_res)
+//@   ensures [needs_polka] r && cs.proposalPOLRound >= 0 ==> ghost(ott_id) != nil && ghost(ott_of) == ghost(vf_res) && ghost(vf_round) == cs.proposalPOLRound && ghost(vf_type) == VoteTypePrevote
